@@ -77,7 +77,7 @@ def load_program(crates, regenerate=True):
 
 
 def new_engine(prog, **kw):
-    return Engine(prog, M.MODELS, **kw)
+    return Engine(prog, M.MODELS + M.GENERIC, **kw)
 
 
 class SymInput:
@@ -107,7 +107,9 @@ def poll_to_result(engine, ctx, fut):
 
 def witness_for(res, extra=None):
     """z3 model for a finished path"""
-    s = z3.Solver()
+    if extra is None and getattr(res, "model", None) is not None:
+        return res.model
+    s = z3.SolverFor("QF_ABV")
     for c in res.pc:
         s.add(bz3(c))
     if extra is not None:
